@@ -93,6 +93,10 @@ def main():
                 put(sg.rand(*shp).data); put(sg.randn(*shp).data); put(sg.normal(1.0, 2.0, *shp).data); put(sg.randint(0, 10, tuple(shp)).data)
             put(sg.rand((3, 2)).data)
             put(sg.randn(1).data)            # an odd number of Gaussian draws in total: the generator holds a cached second variate when the program ends
+            # large draws (above 2^16 and 2^20 elements) come from the seeded stream like small ones
+            put(sg.rand(70000).data); put(sg.randn(300, 300).data); put(sg.rand(3).data)
+            if spec.get("thrice"):
+                put(sg.randn(1100000).data[::1000]); put(sg.rand(2).data)
         elif kind == "initialisers":
             for name in ("uniform_", "normal_", "xavier_uniform_", "xavier_normal_", "kaiming_uniform_", "kaiming_normal_"):
                 t = sg.empty(6, 5)
@@ -119,6 +123,17 @@ def main():
             x = sg.ones(6, 7, requires_grad=True)
             y = d(x); y.sum().backward()
             put(y.data); put(x.grad.data)
+        elif kind == "mixed-dtype-join":
+            # joining tensors of different dtypes of equal width (float features with the int32 tensor randint returns): one answer, whatever
+            # the hash seed - or one refusal
+            f32 = sg.rand(2, 3); i32 = sg.randint(0, 5, (2, 3)); f64 = sg.tensor(np.arange(6.0).reshape(2, 3), dtype=np.float64)
+            i64 = sg.tensor(np.arange(6).reshape(2, 3), dtype=np.int64)
+            for a_, b_ in ((f32, i32), (i32, f32), (f64, i64), (i64, f64), (f32, f64)):
+                for join in (lambda x_, y_: sg.concat([x_, y_], 0), lambda x_, y_: sg.stack([x_, y_], 1), lambda x_, y_: sg.concat((x_, y_, x_), 1)):
+                    try:
+                        put(join(a_, b_).data)
+                    except Exception as e:
+                        put(np.frombuffer(type(e).__name__.encode()[:8].ljust(8), dtype=np.uint8))
         elif kind == "dropout-untracked":
             # Monte-Carlo dropout / a validation pass without eval(): Dropout in training mode under no_grad draws from the seeded stream as well
             d = nn.Dropout(spec.get("p", 0.4))
